@@ -156,7 +156,12 @@ func (vc *VC) load(st *State, p Val, t types.Type) Val {
 	for i, l := range ls {
 		ts[i] = vc.loadLeaf(st, p, t, l)
 	}
-	return buildFromLeaves(t, ts)
+	r := buildFromLeaves(t, ts)
+	if r.K == KFunc && len(p.Path) == 1 && !p.Path[0].IsIdx {
+		// a function value read from a struct field: contracts may be attached to the field
+		r.SubOf = p.Path[0].SKey + "." + p.Path[0].Struct.Field(p.Path[0].Field).Name()
+	}
+	return r
 }
 
 func (vc *VC) leafArr(p Val, t types.Type, l leaf) (name string, sort Sort, idx []Term) {
